@@ -237,17 +237,17 @@ fn run<T: PT>(case: &Value, out: &mut Vec<String>) {
             }
             "get_mut_insert" => ret = hs[h - 1].get_mut_insert(k, &t),
             "mapped" => {
-                // op.maps: list of n entries, each null or a list of [from, to] pairs
+                // op.maps: list of n entries {id: bool, pairs: [[from, to]]}
                 let maps: Vec<Option<PrefixTree2>> = op["maps"]
                     .as_array()
                     .unwrap()
                     .iter()
                     .map(|m| {
-                        if m.is_null() || m == &json!("id") {
+                        if m["id"].as_bool().unwrap() {
                             None
                         } else {
                             let mut p = PrefixTree2::new();
-                            for pr in tups(m) {
+                            for pr in tups(&m["pairs"]) {
                                 PrefixTree2::insert(&mut p, [pr[0], pr[1]]);
                             }
                             Some(p)
